@@ -436,7 +436,7 @@ func (w *verifWorld) opSave() {
 			usernames = append(usernames, u.name)
 		}
 	}
-	if c.Draw("save-real", 8) == 7 {
+	if c.Draw("save-real", 16) == 15 {
 		w.saveReal(sn, id, usernames)
 	} else {
 		w.saveCrafted(sn, id, usernames)
